@@ -2508,6 +2508,10 @@ def rule_X8(F, R, crate_name, kind=None):
     for name, t in c.ithir.items():
         if '<Args as clap::' in name or '@inl' in name: continue
         for e in walk(t['body']):
+            if e['k'] == 'ZstLiteral' and canon((e.get('fn') or {}).get('res') or (e.get('fn') or {}).get('def') or '') == 'std::fs::File::create' and \
+                    not any(x['k'] == 'Call' and x.get('fun') is e for x in walk(t['body'])):
+                # the function handed on as a value (`output.map(File::create)`): whoever calls it creates the file truncating
+                n += 1; R.count('X8:output-files'); R.obligation(True, 'X8 create %s' % e['loc']); continue
             if e['k'] != 'Call': continue
             cn = callee_name(e) or ''
             if cn == 'std::fs::File::create':
